@@ -512,6 +512,29 @@ class LambdaExpression(Expression):
 
 
 RE_PROPERTY = re.compile(r"[\u0080-\uFFFFa-zA-Z_][\u0080-\uFFFFa-zA-Z0-9_-]*")
+# Words that are not scanned as a variable name when they appear on their own.
+_RESERVED_WORDS = frozenset(
+    [
+        "true",
+        "false",
+        "and",
+        "or",
+        "in",
+        "not",
+        "contains",
+        "nil",
+        "null",
+        "if",
+        "else",
+        "with",
+        "required",
+        "as",
+        "for",
+        "empty",
+        "blank",
+    ]
+)
+
 Segments: TypeAlias = tuple[Union[str, int, "Segments"], ...]
 
 
@@ -531,7 +554,17 @@ class Path(Expression):
 
     def __str__(self) -> str:
         it = iter(self.path)
-        buf = [str(next(it))]
+        root = next(it)
+        if isinstance(root, Path):
+            buf = [f"[{root}]"]
+        elif isinstance(root, str) and (
+            not RE_PROPERTY.fullmatch(root)
+            or (len(self.path) == 1 and root in _RESERVED_WORDS)
+        ):
+            # Not a valid bare word, or a word that would be read as a keyword.
+            buf = [f"[{quote_string(root)}]"]
+        else:
+            buf = [str(root)]
         for segment in it:
             if isinstance(segment, Path):
                 buf.append(f"[{segment}]")
